@@ -51,6 +51,11 @@ pub enum Layout {
     RareLast,
     /// all rare symbols (shuffled) first, the most frequent symbol in one run at the end
     FreqAfterRare,
+    /// `lead` copies of the most frequent symbol, then every symbol outside the `top` most frequent
+    /// ones round-robin in one contiguous block, then the rest round-robin: with lead = 1 and a rare
+    /// block of 2048*m symbols, the (2048*m)-th rare occurrence sits exactly on a multiple of the
+    /// 2048-symbol sampling period (where a sampled estimate overshoots the real position)
+    RareBlockAfter { lead: usize, top: usize },
 }
 
 #[derive(Clone, Debug)]
@@ -162,6 +167,7 @@ fn layout_class(l: &Layout) -> &'static str {
         Layout::RareFirst => "rarefirst",
         Layout::RareLast => "rarelast",
         Layout::FreqAfterRare => "freqafterrare",
+        Layout::RareBlockAfter { .. } => "rareblockafter",
     }
 }
 
@@ -338,6 +344,36 @@ pub fn arrange(syms: &[u128], counts: &[usize], layout: &Layout, rng: &mut Rng) 
             let mut order = ident.clone();
             order.sort_by_key(|&i| std::cmp::Reverse(counts[i]));
             expand_sorted(&order, &mut out);
+        }
+        Layout::RareBlockAfter { lead, top } => {
+            if syms.is_empty() {
+                return out;
+            }
+            let mut order = ident.clone();
+            order.sort_by_key(|&i| std::cmp::Reverse(counts[i]));
+            let frequent: Vec<usize> = order.iter().copied().take(*top).collect();
+            let rare: Vec<usize> = order.iter().copied().skip(*top).collect();
+            let mut left = counts.to_vec();
+            let f0 = frequent[0];
+            for _ in 0..(*lead).min(left[f0]) {
+                out.push(syms[f0]);
+                left[f0] -= 1;
+            }
+            for group in [&rare, &frequent] {
+                loop {
+                    let mut any = false;
+                    for &i in group.iter() {
+                        if left[i] > 0 {
+                            out.push(syms[i]);
+                            left[i] -= 1;
+                            any = true;
+                        }
+                    }
+                    if !any {
+                        break;
+                    }
+                }
+            }
         }
         Layout::FreqAfterRare => {
             if syms.is_empty() {
